@@ -10,6 +10,8 @@ EXTRA_CONFIGS = [
     # larger than the 512 L2 tables the qcow2 writer caches (1 KiB blocks: one table per 128 KiB), mostly filled by one file: -Qa has to flush and recycle tables
     dict(name='ext4-1k-96m-bigfile', fstype='ext4', bs=1024, blocks=98304, features=[], extra=[], bigfile=68 << 20),
     dict(name='ext2-1k-80m-bigfile', fstype='ext2', bs=1024, blocks=81920, features=[], extra=[], bigfile=56 << 20),
+    # larger than 4 GiB, with inode tables, bitmaps and directory blocks in the part above 4 GiB (sparse: a few MiB are really allocated); used read-only, without a private copy
+    dict(name='ext4-4k-5g', fstype='ext4', bs=4096, blocks=1315840, features=[], extra=['-N', '2048'], fillfiles=1750, big=True),
     dict(name='ext4-1k-mmp', fstype='ext4', bs=1024, blocks=8193, features=['mmp'], extra=['-E', 'mmp_update_interval=1']),
 ]
 ALLCFG = fsgen.CONFIGS + EXTRA_CONFIGS
@@ -26,7 +28,9 @@ def cfg_by_name(n):
     raise KeyError(n)
 
 def strategy(env):
-    return st.fixed_dictionaries(dict(cfg=st.sampled_from(CFG_NAMES), recipe=st.integers(0, len(hyp.RECIPES) - 1), extras=st.lists(st.tuples(st.integers(0, fsgen.NKINDS - 1), st.integers(0, 2000), st.integers(0, 6000)), max_size=3),
+    # the 5 GiB configuration costs ~30 s per case (hashing and comparing 5 GiB three times): drawn four times less often than the others
+    names = [c for c in CFG_NAMES if c != 'ext4-4k-5g'] * 4 + [c for c in CFG_NAMES if c == 'ext4-4k-5g']
+    return st.fixed_dictionaries(dict(cfg=st.sampled_from(names), recipe=st.integers(0, len(hyp.RECIPES) - 1), extras=st.lists(st.tuples(st.integers(0, fsgen.NKINDS - 1), st.integers(0, 2000), st.integers(0, 6000)), max_size=3),
                                       mode=st.integers(0, len(MODES) - 1), off=st.sampled_from([0, 512, 4096, 1048576, 12345 * 512])))
 
 def envinit(widx):
@@ -37,6 +41,9 @@ def template(env, name, recipe):
     if key in env['cache']: return env['cache'][key]
     cfg = cfg_by_name(name); img = os.path.join(env['dir'], 'tpl-%s-%d.img' % key)
     ok, log = fsgen.build_image(env['plain'], img, cfg, hyp.RECIPES[recipe], env['blobs'], random.Random(recipe * 31 + 7))
+    if ok and cfg.get('fillfiles'):
+        # inodes are handed out first-fit from group 0: enough files to reach the groups beyond 4 GiB
+        env['plain'].dbg(img, ['mkdir hi'] + ['mkdir hi/d%04d' % k if k % 6 == 0 else 'write /dev/null hi/f%04d' % k for k in range(cfg['fillfiles'])], write=True, cpu=300)
     if ok and cfg.get('bigfile'):
         env['plain'].dbg(img, ['write %s hugefile' % fsgen._blob(env['blobs'], 'c19big-%d' % cfg['bigfile'], cfg['bigfile'], 19)], write=True, cpu=300)
     env['cache'][key] = img if ok else None
@@ -51,7 +58,15 @@ def body(case, env):
     cfg = cfg_by_name(case['cfg']); bs = cfg['bs']; d = env['dir']; tp = env['plain']; t = env['asan']
     tpl = template(env, case['cfg'], case['recipe'])
     if tpl is None: return (None, fp, False, None, classes + ['skip:template-build-failed'])
-    src = hyp.fresh_copy(env, tpl, 'c19src.img')
+    if cfg.get('big'):
+        # no private copy (it would have to be a sparse copy) and no extra population: the template itself is the read-only source; only the raw / qcow2 metadata modes
+        src = os.path.join(d, 'c19src.img')
+        if os.path.lexists(src): os.unlink(src)
+        os.link(tpl, src); mode = ['-r', '-Q', '-Q->-r'][case['mode'] % 3]; classes[0] = 'mode:' + mode; case = dict(case, extras=[])
+    else:
+        stale = os.path.join(d, 'c19src.img')
+        if os.path.lexists(stale): os.unlink(stale)      # it may be a hard link to the big template: never write through it
+        src = hyp.fresh_copy(env, tpl, 'c19src.img')
     if case['extras']:
         fsgen.extras_apply(tp, src, case['extras'], env['blobs'], bs, extent_fs=cfg['fstype'] == 'ext4')
         if 'quota' in cfg['features']: tp.fsck(src, '-fy')
